@@ -4,7 +4,7 @@ SHELL := /bin/bash
 COQ_TIMEOUT ?= 1800
 J ?= 12
 
-.PHONY: setup all gen coq extract driver clean prectable onlinegen offlinegen offlinegen-check offlinegen-mutants denseonlinegen denseonlinegen-check denseonlinegen-mutants pastifiergen pastifiergen-check pastifiergen-mutants explainergen explainergen-check explainergen-mutants denseofflinegen denseofflinegen-check denseofflinegen-mutants coqchk coqchk-float static
+.PHONY: setup all gen coq extract driver clean prectable onlinegen offlinegen offlinegen-check offlinegen-mutants denseonlinegen denseonlinegen-check denseonlinegen-mutants pastifiergen pastifiergen-check pastifiergen-mutants explainergen explainergen-check explainergen-mutants denseofflinegen denseofflinegen-check denseofflinegen-mutants mergegen mergegen-check mergegen-mutants unitsgen unitsgen-check unitsgen-mutants coqchk coqchk-float static
 
 # `make all` never stops at the first failure: a source file of nickovic/rtamt that a translator refuses, or a proof that no longer
 # checks against the regenerated text, must break the obligations of the properties that depend on it and of no other property.
@@ -18,7 +18,7 @@ all:
 	@($(MAKE) coq > build/status/coq.log 2>&1 && echo ok > build/status/coq) || (tail -40 build/status/coq.log > build/status/coq; true)
 	@($(MAKE) driver > build/status/driver.log 2>&1 && echo ok > build/status/driver) || (tail -40 build/status/driver.log > build/status/driver; true)
 	@grep -v "^COQC\|^COQDEP\|Closed under the global context\|^make" build/status/coq.log | tail -5; true
-	@for f in prectable offlinegen onlinegen denseonlinegen pastifiergen explainergen denseofflinegen coq driver; do if [ "`head -c 2 build/status/$$f`" != "ok" ]; then echo "make all: step $$f failed (build/status/$$f)"; fail=1; fi; done; test -z "$$fail"
+	@for f in prectable offlinegen onlinegen denseonlinegen pastifiergen explainergen denseofflinegen mergegen unitsgen coq driver; do if [ "`head -c 2 build/status/$$f`" != "ok" ]; then echo "make all: step $$f failed (build/status/$$f)"; fail=1; fi; done; test -z "$$fail"
 
 coq/Makefile.coq: coq/_CoqProject
 	cd coq && coq_makefile -f _CoqProject -o Makefile.coq
@@ -34,6 +34,8 @@ gen:
 	@($(MAKE) -s denseofflinegen > build/status/denseofflinegen.log 2>&1 && echo ok > build/status/denseofflinegen) || (tail -20 build/status/denseofflinegen.log > build/status/denseofflinegen; true)
 	@($(MAKE) -s pastifiergen > build/status/pastifiergen.log 2>&1 && echo ok > build/status/pastifiergen) || (tail -20 build/status/pastifiergen.log > build/status/pastifiergen; true)
 	@($(MAKE) -s explainergen > build/status/explainergen.log 2>&1 && echo ok > build/status/explainergen) || (tail -20 build/status/explainergen.log > build/status/explainergen; true)
+	@($(MAKE) -s mergegen > build/status/mergegen.log 2>&1 && echo ok > build/status/mergegen) || (tail -20 build/status/mergegen.log > build/status/mergegen; true)
+	@($(MAKE) -s unitsgen > build/status/unitsgen.log 2>&1 && echo ok > build/status/unitsgen) || (tail -20 build/status/unitsgen.log > build/status/unitsgen; true)
 
 # the precedence table of the parser model is regenerated from rtamt's generated ANTLR parser on every build
 prectable:
@@ -136,6 +138,41 @@ explainergen-check: coq
 # semantic mutations + harmless rewrites of scratch copies of the four source files: translator verdict / first lemma that fails
 explainergen-mutants: coq
 	python3 tools/explainergen_mutants.py
+# intersection() and _append() of the two dense-time intersection.py files (and the point-wise methods / split of the offline one) are
+# re-translated on every build (tools/py2coq_merge.py, fail-closed: an unsupported construct, a changed signature, a new / removed function
+# or a changed pinned function stops the translator: C04 and C05 are then reported as no longer shown); MergeGenCorrect.v re-proves, against
+# the new text, that the generated functions are the hand models isect / isect_g / oisect_g and that the fuel of their loops suffices
+mergegen:
+	@mkdir -p build
+	python3 tools/py2coq_merge.py $(REPO) build/MergeGen.v.new
+	@cmp -s build/MergeGen.v.new coq/theories/MergeGen.v || cp build/MergeGen.v.new coq/theories/MergeGen.v
+
+# function-level differential check of the generated definitions against the Python functions (not part of `all`: ~4 min of vm_compute)
+mergegen-check: coq
+	PYTHONDONTWRITEBYTECODE=1 PYTHONPATH=$(REPO) /venv/bin/python harness/mergegen_check.py build/MergeGenCases.v
+	cd coq && timeout 1800 coqc -Q theories RV ../build/MergeGenCases.v
+
+# semantic mutations + harmless rewrites of scratch copies of the two source files: translator verdict / first lemma that fails
+mergegen-mutants: coq
+	python3 tools/mergegen_mutants.py
+# the unit conversion of both interpreters (time_unit_transformer, check_pastified_bounds), the unit dictionaries and the sampling-violation
+# counter (gap, update_sampling_violation_counter, set_sampling_period, __init__, the counter statements of update() / reset() / evaluate())
+# are re-translated on every build (tools/py2coq_units.py, fail-closed: C08 and C13 are then reported as no longer shown);
+# UnitsGenCorrect.v re-proves, against the new text, that they compute to_samples_z / to_dense (UnitsLift.v) and jstep / jrun / joff (Jitter.v)
+unitsgen:
+	@mkdir -p build
+	python3 tools/py2coq_units.py $(REPO) build/UnitsGen.v.new
+	@cmp -s build/UnitsGen.v.new coq/theories/UnitsGen.v || cp build/UnitsGen.v.new coq/theories/UnitsGen.v
+
+# differential check of the generated definitions against the Python methods and, for the counter statements, against the public API
+# (not part of `all`: 5000 cases, ~3 min of vm_compute; harness/unitsgen_check.py --n 6000 gives the 15000 cases of the report)
+unitsgen-check: coq
+	PYTHONDONTWRITEBYTECODE=1 PYTHONPATH=$(REPO) /venv/bin/python harness/unitsgen_check.py --n 2000 build/UnitsGenCases.v
+	cd coq && timeout 1800 coqc -w -abstract-large-number -Q theories RV ../build/UnitsGenCases.v
+
+# semantic mutations + harmless rewrites of scratch copies of the source files: translator verdict / first lemma that fails
+unitsgen-mutants: coq
+	python3 tools/unitsgen_mutants.py
 
 coq: coq/Makefile.coq
 	cd coq && timeout $(COQ_TIMEOUT) $(MAKE) -k -f Makefile.coq -j$(J)
